@@ -576,36 +576,47 @@ class Checkers(object):
         return False, '`+= 1` is not guarded by a comparison of the counter against channel_max'
 
     def chk_reply_text_truncation_safe(self):
+        """Read off the path table of client_exception (helpers read through): truncate(text, end) only where
+        N < text.len(), end starts at N <= 255, is only ever decremented while !text.is_char_boundary(end), and
+        truncate runs on the exit edge is_char_boundary(end)."""
+        import paths as P
         fnp = 'io_loop::connection_state::ConnectionState::client_exception'
-        root = self.hir(fnp)
-        tr = self.if_guards(root, lambda n: n.get('k') == 'MethodCall' and n['name'] == 'truncate')
-        subs = self.if_guards(root, lambda n: n.get('k') == 'AssignOp' and n['op'] in ('-=', '-'))
-        if len(tr) != 1 or len(subs) != 1:
-            return False, 'expected one truncate and one `-=`'
-        (tg, tn), (sg, sn) = tr[0], subs[0]
-        end = H.local_id(tn['args'][0])
-        if end is None or H.local_id(sn['l']) != end or H.term(sn['r']) != '1':
-            return False, 'truncate argument is not the decremented position'
-        # the decrement runs only while !is_char_boundary(end) on the same string
-        ok = False
-        for kind, ifn, pol in sg:
-            c = H.peel(ifn['cond'])
-            if c.get('k') == 'Unary' and c['op'] == 'Not' and pol is True:
-                m = H.peel(c['e'])
-                if m.get('k') == 'MethodCall' and m['name'] == 'is_char_boundary' and H.same_place(m['recv'], tn['recv']) and H.local_id(m['args'][0]) == end:
-                    ok = True
-        if not ok:
-            return False, '`end -= 1` is not inside `while !text.is_char_boundary(end)`'
-        # both sit under `text.len() > N` with end initialised to N
-        lets = [x for x in H.walk(root) if x.get('k') == 'Let' and x['pat'].get('k') == 'Bind' and x['pat']['id'] == end]
-        if not lets:
+        rows = P.table(self.ctx, fnp, ['self', 'inner', 'reply_code', 'reply_text'])
+        LEN = 'std::string::String::len(reply_text)'
+        trunc_rows = [x for x in rows if any(e.startswith('std::string::String::truncate(') for e in x.effects)]
+        if len(trunc_rows) != 1:
+            return False, 'expected truncate on exactly one path'
+        x = trunc_rows[0]
+        tr = [e for e in x.effects if e.startswith('std::string::String::truncate(')]
+        m = re.match(r'^std::string::String::truncate\(reply_text, (\$m\d+)\)$', tr[0]) if len(tr) == 1 else None
+        if not m:
+            return False, 'truncate is not truncate(reply_text, <position local>): %s' % tr
+        end = m.group(1)
+        inits = [e for e in x.effects if e.startswith('let %s = ' % end)]
+        if len(inits) != 1:
             return False, 'position initialisation not found'
-        init = H.term(lets[0]['init'])
-        g_ok = any(H.peel(ifn['cond']).get('k') == 'Binary' and H.peel(ifn['cond'])['op'] == '>' and H.term(H.peel(ifn['cond'])['r']) == init and pol
-                   and H.peel(H.peel(ifn['cond'])['l']).get('name') == 'len' for kind, ifn, pol in tg)
-        if not g_ok:
-            return False, 'truncate is not on the true edge of `text.len() > %s`' % init
-        return True, 'end starts at %s < len, only decreases while not a char boundary (0 always is one), so truncate(end) is in range and on a boundary' % init
+        bound = inits[0][len('let %s = ' % end):]
+        if bound.isdigit():
+            n = int(bound)
+        else:
+            c = self.ctx.consts.get(bound)
+            n = int(c['bits']) if c is not None and c.get('bits') is not None else None
+        if n is None or n > 255:
+            return False, 'the position starts at %s, not at a constant <= 255' % bound
+        if ('(%s < %s)' % (bound, LEN), True) not in x.conds:
+            return False, 'truncate is not on the true edge of `text.len() > %s`' % bound
+        BND = 'std::str::is_char_boundary(reply_text, %s)' % end
+        if (BND, True) not in x.conds:
+            return False, 'truncate(end) is not on the exit edge is_char_boundary(end)'
+        for y in rows:
+            for e in y.effects:
+                if e.startswith(end + ' ') and not e.startswith('let '):
+                    if e != '%s -= 1' % end or (BND, False) not in y.conds or ('(%s < %s)' % (bound, LEN), True) not in y.conds:
+                        return False, 'the position is changed other than by `end -= 1` while !is_char_boundary(end): %s under %s' % (e, y.cond_strs())
+        short = [y for y in rows if ('(%s < %s)' % (bound, LEN), False) in y.conds]
+        if len(short) != 1 or any('truncate' in e or e.startswith('reply_text') for e in short[0].effects):
+            return False, 'a text of at most %s bytes must be left alone' % bound
+        return True, 'end starts at %s < len, only decreases while not a char boundary (0 always is one), so truncate(end) is in range and on a boundary' % bound
 
     def chk_tls_inner_restored(self):
         fnp = '<stream::native_tls::TlsHandshakeStream<S> as stream::HandshakeStream>::progress_handshake'
